@@ -27,6 +27,9 @@ PENDING_REASON = "not yet built in this framework (see DESIGN.md 10 for the buil
 
 def main():
     CHECKS = load_checks()
+    # only properties whose check the coordinator has seen exit 0 on the unchanged tree are claimed
+    claimed = json.load(open(os.path.join(VERIF, "harness", "claimed.json")))
+    CHECKS = {k: v for k, v in CHECKS.items() if k in claimed}
     checks = []
     for pid in ALL:
         if pid not in CHECKS:
@@ -50,7 +53,7 @@ def main():
             "guard": "CTI_PYTHON_STIX2_VERIF",
             "enable": "no source hooks: checks import /repo in place with PYTHONPATH=/repo (CTI_PYTHON_STIX2_VERIF=1 is set but nothing in /repo reads it)",
             "baseline_off_cmd": "cd /repo && /venv/bin/python -m pytest -ra -q -p no:cacheprovider --timeout=900 --continue-on-collection-errors",
-            "source_commits": [],
+            "source_commits": [],  # no guarded hook commits; unguarded fix: commits are listed in known_findings.json
             "add_only": True,
         },
         "engines": [{
